@@ -179,6 +179,13 @@ def run_quiet(prop, scenario):
         res.violate('hang', limit_s=limit)
         res.obs.append('hang')
         return res
+    except Exception as e:
+        if type(e).__name__ == 'NumericOverflow':
+            res = Result()
+            res.discarded = True
+            res.obs.append('numeric-overflow')
+            return res
+        raise
     finally:
         signal.setitimer(signal.ITIMER_REAL, 0)
         signal.signal(signal.SIGALRM, old)
